@@ -27,7 +27,7 @@
    matcher's contract (C09). *)
 From Coq Require Import List Arith Bool ZArith QArith.
 Import ListNotations.
-From SV Require Import C09.Tracker C09.Lemmas C10.Scene C10.Lemmas.
+From SV Require Import C09.Tracker C09.Lemmas C09.TrackerX C09.LemmasX C10.Scene C10.Lemmas.
 Close Scope Q_scope.
 Open Scope nat_scope.
 
@@ -177,4 +177,36 @@ Example ex_two_animals_repaired :
     [Ok [(1, Some 0)]; Ok [(1, Some 0); (2, Some 1)]; Ok [(2, Some 1); (1, Some 0)]]
   /\ map snd (fst (run10 cfg h)) = [true; true; true]
   /\ snd (run10 cfg h) = [(1, 0); (2, 1)].
+Proof. vm_compute. auto. Qed.
+
+(* --- round 2: the widened tracker model --------------------------------- *)
+
+(* C09/TrackerX.v adds `max_tracks`, the name checks and (through the recorded
+   score matrices) FlowShiftTracker.  For valid names and ANY max_tracks: if no
+   call needs a track id beyond the cap (`cap_silent`, C09's selector of F4cap;
+   e.g. max_tracks >= number of animals), the widened tracker returns exactly
+   what Tracker.v's model returns, and therefore keeps every identity on every
+   in-class scene. *)
+Theorem c10x_identity_preserved_widened : forall X h,
+  names_ok X = true -> fix_iv X = false -> cap_asis_or_none X ->
+  fix_i (base X) = true -> fix_ii (base X) = true -> 1 <= window (base X) ->
+  Forall (scene_hyp_repaired (base X)) (trace10 (base X) init [] h) ->
+  Forall (cap_silent X) (trace (base X) init h) ->
+  xrun X h = run (base X) h /\
+  exists track_of : owners,
+    NoDup (map fst track_of) /\ NoDup (map snd track_of) /\
+    length (xrun X h) = length h /\
+    Forall (fun x => identity_step x track_of) (trace10 (base X) init [] h).
+Proof. exact identity_preserved_widened. Qed.
+Print Assumptions c10x_identity_preserved_widened.
+
+(* non-vacuity: the two-animal scene above under local queues with max_tracks = 2 *)
+Example ex_two_animals_widened :
+  let X := x_now (mkConfig true false 3 false true true true) (Some 2) in
+  let h : list frame :=
+    [ ([(1, true)], [], AFail);
+      ([(1, true); (2, true)], [[Some 1%Q]; [Some 0%Q]], APairs [(0, 0)]);
+      ([(2, true); (1, true)], [[Some 0%Q; Some 1%Q]; [Some 1%Q; Some 0%Q]], APairs [(0, 1); (1, 0)]) ] in
+  xrun X h = [Ok [(1, Some 0)]; Ok [(1, Some 0); (2, Some 1)]; Ok [(2, Some 1); (1, Some 0)]]
+  /\ forallb (fun x => negb (sel_cap X (t_state x) (t_frame x))) (trace (base X) init h) = true.
 Proof. vm_compute. auto. Qed.
